@@ -46,7 +46,7 @@ from .error_tools import convert_os_errors
 from .errors import FileExpected, NoURL
 from .info import Info
 from .mode import Mode, validate_open_mode
-from .path import basename, dirname
+from .path import basename, dirname, normpath, relpath
 from .permissions import Permissions
 
 if typing.TYPE_CHECKING:
@@ -626,7 +626,9 @@ class OSFS(FS):
 
     def getsyspath(self, path):
         # type: (Text) -> Text
-        sys_path = os.path.join(self._root_path, path.lstrip("/").replace("/", os.sep))
+        # normalise first, so that no back-reference can climb above the root
+        _path = relpath(normpath(path))
+        sys_path = os.path.join(self._root_path, _path.replace("/", os.sep))
         return sys_path
 
     def geturl(self, path, purpose="download"):
